@@ -245,11 +245,13 @@ def check_property(pid, tier, seed):
         n_dis += len(names) + verified - len(failed_names) if not tool else 0
         obl_names += ["%s:%s" % (tag, n) for n in names]
         for e in extraction:
+            if e.get("inactive"):
+                continue
             e2 = dict(e)
             e2["run"] = tag
             fn_under_contract.append(e2)
         for it in unit["items"]:
-            if it.get("assumed"):
+            if it.get("assumed") and not it.get("_inactive"):
                 assumed_items.append("%s: %s" % (it["key"], it["assumed"]))
         evidence_runs.append(dict(run=tag, file=os.path.relpath(out, VERIF), verified_items=verified, errors=errors, clause_obligations=len(names),
                                   wall_s=round(wall, 2), tool_errors=len(tool)))
